@@ -12,6 +12,7 @@ import (
 	"verif/mc/harness"
 	"verif/mc/props/pu"
 	"verif/mc/ref/refsm4"
+	"verif/mc/xp"
 )
 
 var keys = [][]byte{
@@ -261,7 +262,7 @@ func tlsUnit() harness.Unit {
 var Prop = &harness.Prop{
 	ID:    "C12",
 	Level: "exploration",
-	Rule: "full products: 3 keys x 12-byte IV x every (|A|,|P|) of the grid; 3 keys x every IV length 1..64 x 5 IV patterns (zero, 0xff.., position-dependent, tails fffffffe/ffffffff) x |A|,|P| size classes; 0xff in every IV byte position; every single-bit change of IV/AAD/ciphertext/key for 60 shapes per key; large sizes; IVs found by deterministic search whose 32-bit counter wraps. Oracle: cipher.NewGCMWithNonceSize over the independent SM4 (ciphertext, tag, decryption, recomputed tag), canaries on all inputs. Distinct/non-trivial = distinct (key, IV, |A|, |P|) case labels.",
+	Rule: "full products: 3 keys x 12-byte IV x every (|A|,|P|) of the grid; 3 keys x every IV length 1..64 x 5 IV patterns (zero, 0xff.., position-dependent, tails fffffffe/ffffffff) x |A|,|P| size classes; 0xff in every IV byte position; every single-bit change of IV/AAD/ciphertext/key for 60 shapes per key; large sizes; all call histories (depth 3/4) in which the caller overwrites one key/IV/AAD buffer in place between calls; IVs found by deterministic search whose 32-bit counter wraps. Oracle: cipher.NewGCMWithNonceSize over the independent SM4 (ciphertext, tag, decryption, recomputed tag), canaries on all inputs. Distinct/non-trivial = distinct (key, IV, |A|, |P|) case labels.",
 	Assumptions: []string{"Go's crypto/cipher GCM is NIST SP 800-38D for any nonce length", "refsm4 correct (GM/T 0002 vectors)"},
 	Bounds: func(tier string) string {
 		if tier == "thorough" {
@@ -290,10 +291,58 @@ var Prop = &harness.Prop{
 		}
 		u = append(u, bigUnit(), tlsUnit())
 		if tier == "thorough" {
+			u = append(u, reuseUnit(4))
+		} else {
+			u = append(u, reuseUnit(3))
+		}
+		if tier == "thorough" {
 			u = append(u, wrapUnit(1<<22, 8192))
 		} else {
 			u = append(u, wrapUnit(1<<19, 32768))
 		}
 		return u
 	},
+}
+
+// reuseUnit: call histories in which the caller keeps ONE key buffer, ONE IV buffer and ONE AAD
+// buffer and overwrites them in place between calls (key rotation into a reusable buffer). Results
+// must not depend on what the buffers held before.
+func reuseUnit(depth int) harness.Unit {
+	return harness.Unit{Name: fmt.Sprintf("buffer-reuse-histories/depth=%d", depth), Run: func(c *harness.Ctx) {
+		ivLens := []int{12, 16}
+		c.Explore(-1, func(x *xp.X) {
+			keyBuf := make([]byte, 16)
+			ivBuf := make([]byte, 16)
+			aBuf := make([]byte, 20)
+			var hist []string
+			for step := 0; step < depth; step++ {
+				ki := x.Pick(len(keys), "key")
+				ivn := ivLens[x.Pick(len(ivLens), "ivlen")]
+				enc := x.Pick(2, "enc/dec") == 0
+				copy(keyBuf, keys[ki])
+				copy(ivBuf, pu.Msg(70+ki, 16))
+				copy(aBuf, pu.Msg(90+step, 20))
+				iv := ivBuf[:ivn]
+				p := pu.Msg(step, 21)
+				wantC, wantT := refSeal(keys[ki], iv, p, aBuf)
+				c.Add("evaluations", 1)
+				hist = append(hist, fmt.Sprintf("key%d/iv%d/%v", ki, ivn, enc))
+				var o1, o2 []byte
+				if enc {
+					o1, o2, _ = sm4.Sm4GCM(keyBuf, iv, p, aBuf, true)
+				} else {
+					o1, o2, _ = sm4.Sm4GCM(keyBuf, iv, wantC, aBuf, false)
+					wantC = p
+				}
+				if !bytes.Equal(o1, wantC) || !bytes.Equal(o2, wantT) {
+					c.Violate("buffer-reuse-history", fmt.Sprintf("after call history %v (caller reuses one key/IV/AAD buffer, overwritten in place) the result %s/%x differs from standard GCM %s/%x", hist, pu.Hex(o1), o2, pu.Hex(wantC), wantT), x.Choices, nil)
+					return
+				}
+			}
+			c.DistinctS("nontrivial", fmt.Sprint(hist))
+			if c.WantSample() {
+				c.Sample(fmt.Sprintf("in-place buffer reuse history %v", hist))
+			}
+		}, nil)
+	}}
 }
